@@ -134,6 +134,11 @@ func (f *Frame) loopHeader(li *loopInfo) {
 			f.st.heaps[k] = tFalse // "called in the current iteration of the innermost enclosing loop"
 			continue
 		}
+		if e.readonlyHeaps[k] {
+			// a field that is only written by its constructors on fresh objects: objects that exist at the loop head
+			// keep their value (objects allocated inside the loop are simply unknown afterwards, which is sound)
+			continue
+		}
 		f.st.heaps[k] = e.havoc(k+"@loop", eff.names[k])
 	}
 	if eff.alloc || eff.all {
@@ -234,20 +239,10 @@ func (f *Frame) backEdge(from, to *ssa.BasicBlock, cond Term) {
 		// transition obligation: locals visible at the back edge's source block, prev(x) = head value
 		env := f.loopEnv(li, back, f.st)
 		for name, v := range f.localsDominating(from) {
-			if _, shadow := env.vars[name]; shadow {
-				continue
-			}
-			if pv, ok := f.vals[v]; ok {
-				env.vars[name] = SpecVal{T: e.valTerm(pv, v.Type()), Typ: v.Type(), V: pv}
-			}
+			f.bindLocal(env, name, v, f.st, true)
 		}
 		for name, v := range f.localsIn(from) {
-			if pv, ok := f.vals[v]; ok {
-				if _, isPhiName := env.vars[name]; isPhiName {
-					continue
-				}
-				env.vars[name] = SpecVal{T: e.valTerm(pv, v.Type()), Typ: v.Type(), V: pv}
-			}
+			f.bindLocal(env, name, v, f.st, true)
 		}
 		env.prev = map[string]SpecVal{}
 		for _, phi := range li.phis {
@@ -680,9 +675,7 @@ func (f *Frame) loopEnv(li *loopInfo, phis map[*ssa.Phi]Value, st *State) *SpecE
 	// locals visible by source name: values dominating the header
 	hb := f.fn.Blocks[li.header]
 	for name, v := range f.localsDominating(hb) {
-		if pv, ok := f.vals[v]; ok {
-			env.vars[name] = SpecVal{T: f.e.valTerm(pv, v.Type()), Typ: v.Type(), V: pv}
-		}
+		f.bindLocal(env, name, v, st, false)
 	}
 	for _, phi := range li.phis {
 		pv, ok := phis[phi]
@@ -710,10 +703,17 @@ func (f *Frame) localsBefore(in ssa.Instruction) map[string]ssa.Value {
 			break
 		}
 		dr, ok := x.(*ssa.DebugRef)
-		if !ok || dr.IsAddr {
+		if !ok {
 			continue
 		}
 		if obj := f.e.p.debugObj(dr); obj != "" {
+			if dr.IsAddr {
+				// a variable that lives in memory: only its address is a value (spec: &name)
+				if _, isAlloc := dr.X.(*ssa.Alloc); isAlloc {
+					out["&"+obj] = dr.X
+				}
+				continue
+			}
 			out[obj] = dr.X
 		}
 	}
@@ -725,10 +725,16 @@ func (f *Frame) localsIn(b *ssa.BasicBlock) map[string]ssa.Value {
 	out := map[string]ssa.Value{}
 	for _, in := range b.Instrs {
 		dr, ok := in.(*ssa.DebugRef)
-		if !ok || dr.IsAddr {
+		if !ok {
 			continue
 		}
 		if obj := f.e.p.debugObj(dr); obj != "" {
+			if dr.IsAddr {
+				if _, isAlloc := dr.X.(*ssa.Alloc); isAlloc {
+					out["&"+obj] = dr.X
+				}
+				continue
+			}
 			out[obj] = dr.X
 		}
 	}
@@ -745,15 +751,59 @@ func (f *Frame) localsDominating(b *ssa.BasicBlock) map[string]ssa.Value {
 		}
 		for _, in := range blk.Instrs {
 			dr, ok := in.(*ssa.DebugRef)
-			if !ok || dr.IsAddr {
+			if !ok {
 				continue
 			}
 			obj := f.e.p.debugObj(dr)
 			if obj == "" {
 				continue
 			}
+			if dr.IsAddr {
+				if _, isAlloc := dr.X.(*ssa.Alloc); isAlloc {
+					out["&"+obj] = dr.X
+				}
+				continue
+			}
 			out[obj] = dr.X
 		}
 	}
 	return out
+}
+
+// bindLocal binds a source-level local in a spec environment. Names of the form "&x" come from variables that live
+// in memory (address-taken locals, named results captured by deferred closures): "&x" is bound to the address and,
+// unless x is already bound, x itself to the pointer (struct variables: field access loads from the environment's
+// state, as Go's implicit dereference does) or to the cell's content in state st (scalars).
+func (f *Frame) bindLocal(env *SpecEnv, name string, v ssa.Value, st *State, keep bool) {
+	e := f.e
+	pv, ok := f.vals[v]
+	if !ok {
+		return
+	}
+	if !strings.HasPrefix(name, "&") {
+		if _, bound := env.vars[name]; bound && keep {
+			return
+		}
+		env.vars[name] = SpecVal{T: e.valTerm(pv, v.Type()), Typ: v.Type(), V: pv}
+		return
+	}
+	ptr := SpecVal{T: e.valTerm(pv, v.Type()), Typ: v.Type(), V: pv}
+	env.vars[name] = ptr
+	plain := name[1:]
+	if _, bound := env.vars[plain]; bound {
+		return
+	}
+	pt, ok := v.Type().Underlying().(*types.Pointer)
+	if !ok {
+		return
+	}
+	switch pt.Elem().Underlying().(type) {
+	case *types.Struct:
+		env.vars[plain] = ptr
+	case *types.Array:
+	default:
+		if a := f.ptrAddr(pv, v.Type()); a != nil && st != nil {
+			env.vars[plain] = SpecVal{T: e.loadAddr(st, a), Typ: pt.Elem()}
+		}
+	}
 }
